@@ -111,16 +111,31 @@ pub fn fatal_huge_alloc(size: usize) -> ! {
   unsafe { libc::_exit(3) }
 }
 
-/// every stack check gets its own range of domain ids (= UDP port ranges), so that two checks
-/// running at the same time on one box do not discover each other's participants
+/// Every stack check gets its own range of domain ids (= UDP port ranges), so that two checks running at the
+/// same time on one box do not discover each other's participants; and within its range one of three slots of
+/// 16 ids, claimed with a lock file for the life of the process, so that two runs of the SAME check (say quick
+/// and thorough) keep apart too. Domain ids go up to 232 (port = 7400 + 250 * id).
 fn domain_base(id: &str) -> usize {
-  match id {
+  let range = match id {
     "C11" => 10,
-    "C12" => 40,
-    "C07" => 70,
-    "C17" => 100,
-    _ => 130,
-  }
+    "C12" => 58,
+    "C07" => 106,
+    _ => 154,
+  };
+  static SLOT: std::sync::OnceLock<(usize, Option<std::fs::File>)> = std::sync::OnceLock::new();
+  let (slot, _) = SLOT.get_or_init(|| {
+    use std::os::unix::io::AsRawFd;
+    for slot in 0..3usize {
+      let path = std::env::temp_dir().join(format!("verif-domains-{id}-{slot}.lock"));
+      if let Ok(f) = std::fs::OpenOptions::new().create(true).write(true).truncate(false).open(&path) {
+        if unsafe { libc::flock(f.as_raw_fd(), libc::LOCK_EX | libc::LOCK_NB) } == 0 {
+          return (slot, Some(f));
+        }
+      }
+    }
+    (0, None)
+  });
+  range + 16 * slot
 }
 
 pub const CPU_BUDGET_S: f64 = 2.0;
